@@ -139,6 +139,28 @@ CLAIMED["C19"] = dict(
     technique="TLA+ specification (KeepAlive) model-checked with TLC; TLC-enumerated timed client schedules replayed in real time against a real broker",
     design="6 C19")
 
+CLAIMED["C05"] = dict(
+    category="fault_enumeration",
+    text="Fault sequences enumerated by TLC from the Faults specification (12 kinds of hostile input before and after CONNECT - garbage, truncated, oversized "
+         "remaining length, cut at byte boundaries, second CONNECT, zero-length topic - at every position of every bounded sequence of bursts, stalled readers and "
+         "ends of other connections) are executed on a real broker: the process stays alive (the broker runs in child processes; a dead child is the observation), "
+         "and a witness publisher/subscriber pair receives exactly its own traffic after every step. The one adverse interleaving of a delivery with the teardown "
+         "of its target is forced through the yield point wm.checked (gated schedule). The 14 refused-first-packet kinds of the Broker specification run in child processes too.",
+    note="Trusted: TLC, harness/faults.go, the verif hooks. The property does not require the offender to be closed, so that is not demanded. Apart from the gated "
+         "schedule, timing of teardown versus foreign deliveries is whatever the scheduler produces.",
+    technique="TLA+ fault-sequence specification (Faults, Broker!Refuse) enumerated by TLC; sequences executed against a real broker in child processes; one TLC-style gated schedule",
+    design="6 C05")
+CLAIMED["C16"] = dict(
+    text="TLC checks on the Teardown specification (small-step, concurrent: goroutine life cycles, bounded rings, fan-out that blocks on a full open ring and fails on a "
+         "closed one, will fan-out inside teardown, Server.Close) the leads-to properties TornDown and CloseReturns under fairness and the property's proviso. Every fault "
+         "sequence of bounded length from Faults (bursts of 6 KB publishes into 16 KiB rings, peers that stop reading, DISCONNECT / cut / malformed / oversized packet, "
+         "Server.Close, both orders of ending, cross-subscribed pairs) is executed on a real broker: teardown-finished events where the proviso holds, at the end everything "
+         "torn down, Server.Close returned, no library goroutine, no subscription, no clean session left.",
+    note="'Bounded time' = 6 s deadline, reproduced on a second run before it counts. Intermediate expectations only under a sufficient condition for the proviso "
+         "(no open connection has stopped reading). The Teardown model abstracts packets to PUB/DISC and rings to capacity 1.",
+    technique="TLA+ specification (Teardown) model-checked with TLC incl. liveness; TLC-enumerated fault sequences (Faults) executed against a real broker",
+    design="6 C16")
+
 NOT_APPLICABLE = {
     "C18": "data-race freedom is a property of individual memory accesses under the Go memory model; a TLA+ specification "
            "observes actions, not loads and stores, and could only be bound to the code by hand-placed annotations (DESIGN.md section 7)",
